@@ -411,4 +411,5 @@ theorem C14_sql_keeps_at_least (n : Nat) (rows : List Int) :
 /-- KNOWN FINDING `sqlite-keep-zero`: with N = 0 the model (like the code) keeps every row -/
 theorem C14_sql_zero_cex : sqlKept 0 [3, 1, 2] = [3, 1, 2] := by decide
 
-example : min 2 [5, 1, 9, 3].length ≤ (sqlKept 2 [5, 1, 9, 3]).length := C14_sql_keeps_at_least _ _
+example : min 2 ([5, 1, 9, 3] : List Int).length ≤ (sqlKept 2 [5, 1, 9, 3]).length :=
+  C14_sql_keeps_at_least 2 [5, 1, 9, 3]
